@@ -71,7 +71,7 @@ def sel_shape(lens, rs, cs):
 
 def gen_program(r, maxsteps=9, maxh=6, read_bias=0.2, assign_bias=0.2):
     lens = rnd_lens(r, 5, 5)
-    if r.random() < 0.05:                        # now and then more than 100 cells / more than 20 rows: other branches of repr / str
+    if r.random() < 0.01:                        # now and then more than 100 cells / more than 20 rows: other branches of repr / str
         lens = [r.randint(0, 7) for _ in range(r.randint(22, 30))] + [6] * 8
     k = 10
     rows = []
